@@ -1,7 +1,7 @@
 """C02 - see DESIGN.md section 4; streaming workloads of h_stream.c with prop=C02 oracles"""
 from vlib import build, core
 
-HARNESSES = {'h_stream/asan': ('h_stream', 'asan'), 'h_stream/plain': ('h_stream', 'plain')}
+HARNESSES = {'h_stream/asan': ('h_stream', 'asan'), 'h_stream/plain': ('h_stream', 'plain'), 'h_stream/val': ('h_stream', 'val')}
 PROP = 'C02'
 
 
@@ -13,6 +13,7 @@ def run(prop, tier, seed, t0):
     na, npl = (30000, 120000) if thorough else (1200, 2500)
     R.run_sharded(res, exes[0], ['prop=' + PROP], na, label='h_stream/asan', variant='asan')
     R.run_sharded(res, exes[1], ['prop=' + PROP], npl, label='h_stream/plain', variant='plain', first=na)
+    res.other['vg'] = core.valgrind_stage(R, res, HARNESSES['h_stream/val'], ['prop=' + PROP], 3200 if thorough else 160, na + npl)
     return finish(prop, tier, seed, res, t0, R)
 
 
@@ -21,7 +22,7 @@ def finish(prop, tier, seed, res, t0, R):
         'evaluations': res.stat('cases'), 'distinct_nontrivial': res.ncells('script') + res.ncells('dhist'),
         'rule': 'input x parameter vector (incl. nbWorkers>=1, magicless) x 1..3 frames (+skippable frames) each compressed by a script indexed by input offset (slice lengths 1..MiB, continue/flush/end mix, empty end call, output capacities from 1 byte, compressStream2 and legacy compressStream/flushStream/endStream; 1 case in 4 through the stable-in / stable-out / stable-in+out buffer modes, the buffer-less Begin/Continue/End API (contiguous, every segment in its own memory, via ZSTD_copyCCtx; level or ZSTD_compressBegin_advanced) or ZBUFF); '
                 'decoded one-shot, by the independent decoder R, by ZSTD_decompressStream under 2 random histories (incl. 1-byte in/out, drain-only calls, stableOutBuffer) with the rule "returns 0 exactly at frame ends with output flushed", buffer-less via nextSrcSizeToDecompress, and through ZBUFF_decompressContinue; plus the block-level API (compressBlock / decompressBlock / insertBlock) on the same data. distinct non-trivial = distinct (script class, api, MT, output class) + decoder history classes',
-        'stream_calls': res.stat('stream_calls'), 'decode_histories': res.stat('decode_histories'), 'drain_only_calls': res.stat('drain_only_calls'), 'bufferless_decodes': res.stat('bufferless_decodes'), 'frames_R_ok': res.stat('frames_R_ok'),
+        'cases_under_valgrind_memcheck': res.other.get('vg', 0), 'stream_calls': res.stat('stream_calls'), 'decode_histories': res.stat('decode_histories'), 'drain_only_calls': res.stat('drain_only_calls'), 'bufferless_decodes': res.stat('bufferless_decodes'), 'frames_R_ok': res.stat('frames_R_ok'),
         'alt_entry_cells': res.cells.get('alt_entry', {}), 'blockapi_blocks': res.stat('blockapi_blocks'), 'blockapi_blocks_stored': res.stat('blockapi_blocks_stored'), 'script_cells': res.cells.get('script', {}), 'decoder_history_cells': res.cells.get('dhist', {}), 'applied_cells': res.ncells('applied'), 'memory_refusals': res.stat('memory_refusals'), 'params_rejected': res.stat('params_rejected'),
     }
     return core.finish(prop, tier, seed, 'exploration', res, cov, ['R + own XXH64', 'sampling of histories; sizes <= 1 MiB quick / 4 MiB thorough', 'ZSTD_compressStream2_simpleArgs and the ZSTD_initCStream_* family beyond initCStream are thin wrappers not driven separately'], t0, R)
